@@ -132,6 +132,7 @@ prop('C07',
      design_ref='DESIGN.md section 4 C07')
 
 prop('C08',
+     kani=True,
      level_text='Verus proves, for all inputs, the EXACT error and culprit of every guard of part2 and part3 in source order: wrong number of packages, own identifier present '
                 '(UnknownIdentifier), commitment of the wrong length (IncorrectNumberOfCommitments), first (ascending) sender whose proof of knowledge fails '
                 '(InvalidProofOfKnowledge{culprit: sender}, or the identity/unsupported-DKG errors of the challenge), round-2 map with own identifier / other size / missing sender, '
@@ -272,6 +273,7 @@ prop('C03',
                   'generate_coefficients draws (assumed contract; Kani-backed, bounded)'],
      design_ref='DESIGN.md section 4 C03')
 prop('C04',
+     kani=True,
      level_text='Verus proves for all inputs that aggregate_custom satisfies agg_result_is: a returned signature is exactly (R, sum z_i) AND passes RFC 9591 verification under the group key for '
                 'the package message (ensures released_signatures_verify); if the sum does not verify the result is an error: with detection disabled the verification error (InvalidSignature) '
                 'naming nobody; otherwise InvalidSignatureShare whose culprit list is, in first-cheater mode, exactly [the lowest identifier whose share fails the RFC 9591 5.3 share check] and, in '
